@@ -144,6 +144,11 @@ impl ParseError {
 
     /// 构造函数
     pub fn new(message: &str, env: ParseEnv, index: ParseIndex) -> ParseError {
+        #[cfg(feature = "verif_hooks")]
+        crate::verif_hooks::emit(crate::verif_hooks::Event::EnumError {
+            index,
+            len_env: env.len(),
+        });
         ParseError {
             message: message.to_string(),
             env_slice: ParseError::generate_env_slice(env, index),
@@ -559,12 +564,34 @@ impl<'a> ParseState<'a, &'a str> {
             self.head_skip_spaces();
             // 仍能继续消耗⇒消耗文本
             if self.can_consume() {
+                #[cfg(feature = "verif_hooks")]
+                crate::verif_hooks::emit(crate::verif_hooks::Event::EnumConsumeBegin {
+                    head: self.head,
+                    len_env: self.len_env,
+                    slots: self.verif_slot_mask(),
+                });
                 // 消耗文本&置入「中间结果」
                 self.consume_one(&mut errs)?;
+                #[cfg(feature = "verif_hooks")]
+                crate::verif_hooks::emit(crate::verif_hooks::Event::EnumConsumeEnd {
+                    head: self.head,
+                    len_env: self.len_env,
+                    slots: self.verif_slot_mask(),
+                });
             }
         }
         // 返回「消耗成功」结果
         Self::ok_consume()
+    }
+
+    /// 验证用钩子：「中间解析结果」中已填充条目的位掩码
+    #[cfg(feature = "verif_hooks")]
+    fn verif_slot_mask(&self) -> u8 {
+        (self.mid_result.budget.is_some() as u8)
+            | (self.mid_result.term.is_some() as u8) << 1
+            | (self.mid_result.punctuation.is_some() as u8) << 2
+            | (self.mid_result.stamp.is_some() as u8) << 3
+            | (self.mid_result.truth.is_some() as u8) << 4
     }
 
     /// 检查自己的「解析环境」是否在「头部索引」处以指定字符串开头
@@ -1428,6 +1455,10 @@ impl<'a> ParseState<'a, &'a str> {
 impl<'s> FromParse<(), &'s mut ParseState<'_>> for ParseResult {
     /// 原先在[`ParseState`]的「解析总入口」留到这儿执行
     fn from_parse(_: (), parser: &'s mut ParseState) -> Self {
+        #[cfg(feature = "verif_hooks")]
+        crate::verif_hooks::emit(crate::verif_hooks::Event::EnumParseStart {
+            slots: parser.verif_slot_mask(),
+        });
         // 消耗文本，构建「中间解析结果」
         parser.build_mid_result()?;
         // 转换解析结果
